@@ -155,7 +155,8 @@ def match_finding(v, findings):
         if e.get('status') != 'known':
             continue
         es = e['signature']
-        if all(k in sig and sig[k] == val for k, val in es.items()):
+        # a list in the entry means "one of these values"
+        if all(k in sig and (sig[k] in val if isinstance(val, list) else sig[k] == val) for k, val in es.items()):
             return e
     return None
 
